@@ -10,21 +10,15 @@ Requests (LABEL = none | utf8 | utf16le | utf16be | latin1; SNIFF = 0|1)
   c17.guard  (cfg LABEL SNIFF) hex              -> ok | f13 | label | second    (complement classes of c17Guard)
   c17.dec16  BE (chunks hex…)                   -> hex   the streaming UTF-16 machine
   c17.spec16 BE hex                             -> hex   whole-string UTF-16 specification (own mark removed)
-The UTF-8 and windows-1252 decoders are run as "buffer everything, transcode at the end" machines
-(their streaming behaviour is encoding_rs', validated by the harness against the real code).
+All decoders are streaming machines of Model/Decode.lean (UTF-16, UTF-8, single-byte table).
 -/
 
 def other : Nat → Bytes → Bytes
   | 0 => transcode1252
   | _ => fun bs => bs
 
-/-- buffers the input (reversed, so that a step is O(1)) and transcodes at the end -/
-def bufferAll (f : Bytes → Bytes) : Machine :=
-  { σ := Bytes, init := [], step := fun s b => (b :: s, []), finish := fun s => f s.reverse }
-
-def M : Enc → Machine :=
-  machines (bufferAll fun bs => transcode8 (if ownMark .utf8 bs then bs.drop 3 else bs))
-    (fun id => bufferAll (other id))
+/-- The decoders: UTF-16 and UTF-8 are the modelled streaming machines, windows-1252 the table machine. -/
+def M : Enc → Machine := machines utf8Machine (fun _ => tableMachine win1252)
 
 def parseLabel : Sx → Option (Option Enc)
   | .atom "none" => some none
